@@ -59,6 +59,9 @@ type ModelBlobAccess struct {
 	// backends do) instead of byte-slice-backed ones: background tasks attached to such a buffer run
 	// while the consumer reads, not inside the call that attached them.
 	Streaming bool
+	// LateError (with Streaming) makes the stream of every buffer handed out fail with this error after half of
+	// the object's bytes (at least one call) were delivered: a failure that only shows while the data is consumed.
+	LateError error
 
 	mu    sync.Mutex
 	data  map[string][]byte
@@ -162,10 +165,27 @@ func (m *ModelBlobAccess) newBuffer(d digest.Digest, data []byte) buffer.Buffer 
 	if m.AC {
 		return buffer.NewProtoBufferFromByteSlice(&remoteexecution.ActionResult{}, data, buffer.BackendProvided(buffer.Irreparable(d)))
 	}
+	if m.Streaming && m.LateError != nil {
+		return buffer.NewCASBufferFromReader(d, io.NopCloser(&lateFailingReader{data: data[:len(data)/2], err: m.LateError}), buffer.BackendProvided(buffer.Irreparable(d)))
+	}
 	if m.Streaming {
 		return buffer.NewCASBufferFromReader(d, io.NopCloser(bytes.NewReader(data)), buffer.BackendProvided(buffer.Irreparable(d)))
 	}
 	return buffer.NewCASBufferFromByteSlice(d, data, buffer.BackendProvided(buffer.Irreparable(d)))
+}
+
+type lateFailingReader struct {
+	data []byte
+	err  error
+}
+
+func (r *lateFailingReader) Read(p []byte) (int, error) {
+	if len(r.data) == 0 {
+		return 0, r.err
+	}
+	n := copy(p, r.data)
+	r.data = r.data[n:]
+	return n, nil
 }
 
 // Get implements BlobAccess.
